@@ -468,6 +468,54 @@ func c16Sign(w *core.W, j int) {
 	if d := bridge.Diff(keySnap, k.Key); d != "" {
 		w.Violation("C16/read-only-op-mutates/Sign-Verify/key/"+diffField(d), "the key changed at "+d, wit)
 	}
+	// calls that fail half-way: an RRset (of a type without names in its RDATA) whose middle record cannot
+	// be packed - a TXT string one octet over the limit, an A record with three address octets. Whatever
+	// Sign / Verify did to the records before they gave up has to be undone.
+	{
+		own := "Text." + zone.Pres()
+		mk := func() []dns.RR {
+			if j%2 == 0 {
+				return []dns.RR{
+					&dns.TXT{Hdr: dns.RR_Header{Name: own, Rrtype: dns.TypeTXT, Class: 1, Ttl: 300}, Txt: []string{"first"}},
+					&dns.TXT{Hdr: dns.RR_Header{Name: own, Rrtype: dns.TypeTXT, Class: 1, Ttl: 301}, Txt: []string{strings.Repeat("x", 256)}},
+					&dns.TXT{Hdr: dns.RR_Header{Name: own, Rrtype: dns.TypeTXT, Class: 1, Ttl: 7}, Txt: []string{"third"}},
+				}
+			}
+			return []dns.RR{
+				&dns.A{Hdr: dns.RR_Header{Name: own, Rrtype: dns.TypeA, Class: 1, Ttl: 300}, A: net.IP{192, 0, 2, 1}},
+				&dns.A{Hdr: dns.RR_Header{Name: own, Rrtype: dns.TypeA, Class: 1, Ttl: 86400}, A: net.IP{192, 0, 2}},
+				&dns.A{Hdr: dns.RR_Header{Name: own, Rrtype: dns.TypeA, Class: 1, Ttl: 7}, A: net.IP{192, 0, 2, 3}},
+			}
+		}
+		bad := mk()
+		snapBad := graph.Clone(bad)
+		s2 := &dns.RRSIG{Algorithm: alg, KeyTag: k.Key.KeyTag(), SignerName: zone.Pres(), Inception: 1_600_000_000, Expiration: 2_000_000_000}
+		var e2 error
+		if !w.Guard("RRSIG.Sign(unpackable record)", wit, func() { e2 = s2.Sign(k.Priv, bad) }) {
+			w.Count("failing_sign_calls", 1)
+			if e2 == nil {
+				w.Count("unpackable_rrset_signed", 1)
+			}
+			if d := bridge.Diff(snapBad, bad); d != "" {
+				w.Violation("C16/read-only-op-mutates/Sign-failed/rrset/"+diffField(d), fmt.Sprintf("Sign (result: %v) on an RRset whose second record cannot be packed changed the RRset at %s", e2, d), wit)
+			}
+		}
+		good := mk()
+		good = append(good[:1], good[2:]...)
+		s3 := &dns.RRSIG{Algorithm: alg, KeyTag: k.Key.KeyTag(), SignerName: zone.Pres(), Inception: 1_600_000_000, Expiration: 2_000_000_000}
+		if s3.Sign(k.Priv, good) == nil {
+			s3.OrigTtl = 3600 // (the signature no longer matters: the call has to fail at the unpackable record)
+			bad2 := mk()
+			snap2 := graph.Clone(bad2)
+			var e3 error
+			if !w.Guard("RRSIG.Verify(unpackable record)", wit, func() { e3 = s3.Verify(k.Key, bad2) }) {
+				w.Count("failing_verify_calls", 1)
+				if d := bridge.Diff(snap2, bad2); d != "" {
+					w.Violation("C16/read-only-op-mutates/Verify-failed/rrset/"+diffField(d), fmt.Sprintf("Verify (result: %v) on an RRset whose second record cannot be packed changed the RRset at %s", e3, d), wit)
+				}
+			}
+		}
+	}
 }
 
 // signableLayouts: types that can sit in a signed RRset.
